@@ -1,5 +1,6 @@
 import CspuzModel.Model.Sexp
 import CspuzModel.Model.Serializer
+import CspuzModel.Spec.Serializer
 import CspuzModel.Gen.PuzzleCombinators
 /-!
   Line-protocol handlers for the serializer model (properties C15, C17; C16 builds on them).
@@ -10,7 +11,7 @@ import CspuzModel.Gen.PuzzleCombinators
            `(rooms skip allow)` `(vrooms c skip allow)` `yajilin` `(puzzle name)`
   ops    : `(ser c (v…) idx h w)` `(de c (cp…) idx h w)` `(serp c v h w)` `(dep c (cp…) h w)`
            `(serurl c (name) h w v (prefix))` `(deurl c (url) allowed allowFailure returnSize)` `(info (url))`
-           `(match (url))` `(pde name (url))` `(pcomb name)`
+           `(match (url))` `(pde name (url))` `(pcomb name)` `(scope c)` (→ `(ok wf single terminating)`)
   replies: `(ok …)` `none` `(err Name)` `diverge`
 -/
 namespace Cspuz.Drv
@@ -120,6 +121,9 @@ def handleC15 : Sexp → Option Sexp
     let url ← strOf? url
     let pc ← Gen.puzzleCodecs.find? (·.name == name)
     some (outcomeS (fun r => [pyValS r]) (deProblemAsUrl pc.comb url pc.allowed pc.allowFailure pc.returnSize))
+  | .list [.atom "scope", c] => do
+    let c ← comb? c
+    some (.list [.atom "ok", .ofBool (wf c), .ofBool (single c), .ofBool (terminating c)])
   | .list [.atom "pcomb", .atom name] => do
     let pc ← Gen.puzzleCodecs.find? (·.name == name)
     some (.list [combS pc.comb, strS pc.urlName,
